@@ -25,9 +25,11 @@ TECHNIQUE = "differential execution against pytket's own simulation (state and c
 RULE = ("circuits with registers named from {'b','a','q','z'} created in non-sorted order, sizes 1-2, "
         "<=3 qubits, 2-8 gates from H,X,Y,Z,S,T,Sdg,Tdg,V,Rx,Ry,Rz,CX,CZ,CY,CRz; measured "
         "variants use X/CX only; loaded via load_pytket(use_arrays in {False,True}) and @guppy.pytket "
-        "stubs with right / wrong arity / wrong return shape. distinct = (register layout, gates, "
+        "stubs with right / wrong arity / wrong return shape; a third of the measured circuits use "
+        "non-contiguous bits m[1], m[3], ...; half of the unmeasured circuits are edited in place "
+        "(1-3 more gates on the same object) and loaded again. distinct = (register layout, gates, "
         "loading mode)")
-FLOORS = {"circuits_emulated": 15, "stubs_probed": 20}
+FLOORS = {"circuits_reloaded_after_in_place_edit": 5, "circuits_emulated": 15, "stubs_probed": 20}
 
 HDR = '''from guppylang import guppy
 from guppylang.std.builtins import result, array
@@ -88,11 +90,36 @@ def gen_circuit(rng, measured):
             gates.append(g)
     nbits = 0
     if measured:
-        creg = c.add_c_register("c", nq)
-        for i, q in enumerate(qs):
-            c.Measure(q, creg[i])
+        if rng.random() < 0.35:
+            # bits that do not form a 0-based contiguous register (m[1], m[3], ...): still one
+            # boolean per classical bit, in lexicographic bit order
+            for i, q in enumerate(qs):
+                b = Bit("m", 2 * i + 1)
+                c.add_bit(b)
+                c.Measure(q, b)
+            gates.append("stray-bits")
+        else:
+            creg = c.add_c_register("c", nq)
+            for i, q in enumerate(qs):
+                c.Measure(q, creg[i])
         nbits = nq
     return c, regs, sizes, gates, nbits
+
+
+def extend_in_place(rng, c):
+    """Append 1-3 more gates to the *same* circuit object (edit-and-reload history)."""
+    qs = c.qubits
+    added = []
+    for _ in range(rng.randint(1, 3)):
+        if len(qs) >= 2 and rng.random() < 0.5:
+            a, b = rng.sample(qs, 2)
+            g = rng.choice(["CX", "CZ"])
+            getattr(c, g)(a, b)
+        else:
+            g = rng.choice(["H", "X", "S", "T", "V"])
+            getattr(c, g)(rng.choice(qs))
+        added.append(g)
+    return added
 
 
 def flat_names(use_arrays, lex_regs, sizes, nq):
@@ -119,12 +146,29 @@ def classical_outputs(c):
 
 
 def run_case(ctx, rng, idx, params, tier):
-    from vf import ctx as C
-
     measured = idx % 3 == 2
     circ, regs, sizes, gates, nbits = gen_circuit(rng, measured)
-    nq = circ.n_qubits
     use_arrays = rng.random() < 0.4
+    rec = observe(ctx, rng, idx, circ, regs, sizes, gates, nbits, use_arrays, measured)
+    if not measured and idx % 2 == 0 and rec["status"] == "held":
+        # history: the same circuit object is edited in place and loaded again; the second load must
+        # act like the circuit as it is *now*
+        added = extend_in_place(rng, circ)
+        rec2 = observe(ctx, rng, idx, circ, regs, sizes, gates + ["+"] + added, nbits, use_arrays, measured)
+        for k_, v_ in rec2.get("counters", {}).items():
+            rec["counters"][k_] = rec["counters"].get(k_, 0) + v_
+        rec["counters"]["circuits_reloaded_after_in_place_edit"] = 1
+        if rec2["status"] == "violated":
+            rec["status"] = "violated"
+            rec["violations"] = [{"mech": v["mech"] + ":after-in-place-edit", "witness": v["witness"]}
+                                 for v in rec2["violations"]]
+    return rec
+
+
+def observe(ctx, rng, idx, circ, regs, sizes, gates, nbits, use_arrays, measured):
+    from vf import ctx as C
+
+    nq = circ.n_qubits
     lex_regs = sorted(sizes)
     counters = {"circuits_emulated": 0, "stubs_probed": 0}
     viols = []
@@ -277,6 +321,10 @@ def run_case(ctx, rng, idx, params, tier):
                 viols.append({"mech": f"C26:state-differs:{'arrays' if use_arrays else 'flat'}",
                               "witness": {"text": text, "circuit": repr(circ.get_commands()),
                                           "registers_created": regs, "overlap": float(ov)}})
+    if use_arrays and "stray-bits" in gates and viols:
+        # array mode builds the result type from `circuit.c_registers`, which lists only registers
+        # indexed contiguously from 0: measured bits m[1], m[3] are silently left out (known finding)
+        viols = [{"mech": "C26:array-mode-drops-bits-outside-contiguous-registers", "witness": viols[0]["witness"]}]
     seen = set()
     uniq = [v for v in viols if not (v["mech"] in seen or seen.add(v["mech"]))]
     layout = (tuple(regs), tuple(sizes[r] for r in regs), use_arrays, measured)
